@@ -468,3 +468,20 @@ def c19(prop, tier):
                         design_ref="DESIGN.md §3 C19",
                         assumptions=["acyclic input (stated as the transitive closure not reaching itself)"],
                         outside=["the in-circuit GKR verifier (sum-check with hash-derived challenges over a 254-bit field)", "solving / proving hints", "GkrInfo.Compile's instance permutation"])
+
+
+def c18(prop, tier):
+    curves = ["bn254"] if tier == "quick" else CURVES
+    jobs = []
+    for c in curves:
+        sub = {"PKGNAME": "mpcsetup", "CURVEPKG": "github.com/consensys/gnark-crypto/ecc/" + c, "MPCPKG": "github.com/consensys/gnark/backend/groth16/%s/mpcsetup" % c}
+        jobs.append(Job("phase1-" + c, "./backend/groth16/%s/mpcsetup" % c, ["prelude_sym.go", "c18_phase1.go"], sub))
+        jobs.append(Job("phase2-" + c, "./backend/groth16/%s/mpcsetup" % c, ["prelude_sym.go", "c18_phase2.go"], sub))
+    reach = {"verifHarness_phase1Verify": ["phase1-accept", "phase1-reject"], "verifHarness_verifyPhase1Chain": ["chain-accept", "chain-reject"],
+             "verifHarness_phase2Verify": ["phase2-accept", "phase2-reject"]}
+    return run_property(prop, tier, jobs,
+                        title="C18: Phase1.Verify / VerifyPhase1 / Phase2.Verify with distinct symbolic group elements and recorded, opaque update-proof and same-ratio predicates: acceptance implies the challenge chains to the previous contribution's hash, sizes agree, and exactly the reference predicates were evaluated to true on exactly the reference operands (which proof, which tag, which previous/next values, all power vectors); the chain verifies i against i-1 and seals the last.",
+                        design_ref="DESIGN.md §3 C18",
+                        assumptions=["soundness of the update proofs of knowledge and same-ratio checks (gnark-crypto) - recorded as predicates", "the transcript hash of a contribution is an opaque per-object value", "contributions are well-formed as guaranteed by ReadFrom (one update proof per commitment)"],
+                        outside=["Seal's parameter update, Lagrange conversion and key extraction (FFT/MSM on curves)", "byte-level tampering below the decoders", "VerifyPhase2's evaluation of the circuit (initPhase2)"],
+                        expect_reach=reach)
